@@ -72,7 +72,8 @@ def gen(rng, tier):
         lines = ['wnver::abc']
         for i in range(1, n + 1):
             if g['pos'][i - 1] in ICPOS and rng.random() < 0.7:
-                wt = rng.choice(['1', '2.5', '12', '0.25', '100'])
+                # the spellings float() accepts, exponents included (same number of choices as before: the stream is unchanged)
+                wt = rng.choice(['1', '2.5', '12', '2.5e-1', '1e+02'])
                 lines.append('%d%s %s%s' % (i, g['pos'][i - 1], wt, ' ROOT' if rng.random() < 0.3 else ''))
         if k % 3 == 0 and len(lines) > 1:
             # the same synset listed twice (no random draw: the stream of the other choices stays as it was):
